@@ -212,9 +212,13 @@ RandDefect(f) ==
 VARIABLES n, item
 vars == <<n, item>>
 Init == n = 0 /\ item = [kind |-> "start"]
-Next == /\ n' = n + 1
-        /\ LET f == RandFile IN
-           item' = IF Mode = "defect" THEN [f EXCEPT !.defect = RandDefect(f)] ELSE f
+\* two steps, so that the defect is drawn for the file that was actually drawn (a LET in an action
+\* is re-evaluated at every use, and each evaluation of RandFile is a fresh draw)
+Draw == /\ item.kind # "draft" /\ n' = n + 1
+        /\ item' = [RandFile EXCEPT !.kind = IF Mode = "defect" THEN "draft" ELSE "file"]
+Damage == /\ item.kind = "draft" /\ n' = n
+          /\ item' = [item EXCEPT !.kind = "file", !.defect = RandDefect(item)]
+Next == Draw \/ Damage
 Spec == Init /\ [][Next]_vars
 
 \* file descriptions whose blocks are not empty (TT must be non-empty for a block to exist)
@@ -223,7 +227,7 @@ Sane(f) == \A s \in 1..Len(f.streams) : \A b \in 1..Len(f.streams[s].blocks) :
 Verdict(f) == [valid |-> ValidFile(f),
                lbz_rejects |-> \E s \in 1..Len(f.streams) : \E b \in 1..Len(f.streams[s].blocks) : LbzRejects(f.streams[s].blocks[b])]
 Export ==
-  (item.kind # "start" /\ Sane(item)) =>
+  (item.kind = "file" /\ Sane(item)) =>
      PrintT(<<"BEHAVIOUR", ToJson([file |-> item, verdict |-> Verdict(item)]
                                    @@ (IF Mode = "calibrate" THEN [bytes |-> FileBytes(item), plain |-> FilePlain(item)] ELSE [x |-> 0]))>>)
 =============================================================================
